@@ -203,13 +203,10 @@ func checkC11(r *Run) {
 		}
 		r0 := r.L.str(ex.Ret.Results[0])
 		r1 := unparen(ex.Ret.Results[1])
+		// the error returned here is known non-nil (whatever the variable is called)
 		errNonNil := false
-		for _, p := range ex.St.Paths {
-			for k, v := range p {
-				if strings.HasPrefix(k, "err") && strings.HasSuffix(k, "== nil") && !v {
-					errNonNil = true
-				}
-			}
+		if eo := objOf(info, r1); eo != nil && isErrorType(eo.Type()) {
+			errNonNil = ex.St.holds(res.nameOf(eo)+" == nil", false)
 		}
 		switch {
 		case errNonNil:
